@@ -294,7 +294,12 @@ Section Counter.
                let sub := p ++ [seg (dkey e)] in
                if counters sub then CParentDeleted (dkey e) :: go rest
                else match e with
-                    | DPatch k dd => CPatch k (create_parent_deletion_counter_diff f dd sub) :: go rest
+                    | DPatch k dd =>
+                        (* only recurse if no strategy matched here; a branch with nothing to counter is omitted *)
+                        match create_parent_deletion_counter_diff f dd sub with
+                        | [] => go rest
+                        | subdiff => CPatch k subdiff :: go rest
+                        end
                     | _ => go rest
                     end
            end) d
